@@ -6,6 +6,7 @@ import PandoraModel.Lemmas.InterpScan
 import PandoraModel.Lemmas.InterpSort
 import PandoraModel.Lemmas.InterpOccl
 import PandoraModel.Lemmas.InterpCongr
+import PandoraModel.Model.InterpRepaired
 import PandoraModel.Generated.Interp
 import PandoraModel.Generated.Constants
 
@@ -220,8 +221,8 @@ inductive Outcome (meth : Method) (off : Nat) (a b : DMap) (r c : Nat) : Prop
   | untouched (hf : flagged (a.flag r c) = false) (hd : b.disp r c = a.disp r c) (hg : b.flag r c = a.flag r c)
       (hb : (decide (off > 0) && isBorder a off r c) = true → a.flag r c = leftNodataOrBorder)
   | unfilled (hf : flagged (a.flag r c) = true) (hb : (decide (off > 0) && isBorder a off r c) = false)
-      (hs : sourcesOf meth a b r c = []) (hm : meth = .mccnn) (hk : kindOf meth a r c = .occl)
-      (hg : b.flag r c = a.flag r c)
+      (hs : enoughSources meth (kindOf meth a r c) (sourcesOf meth a b r c).length = false)
+      (hg : b.flag r c = unfilledFlag (kindOf meth a r c) (a.flag r c)) (hfg : flagged (b.flag r c) = true)
   | filled (hf : flagged (a.flag r c) = true) (hb : (decide (off > 0) && isBorder a off r c) = false)
       (hg : b.flag r c = filledFlag (kindOf meth a r c) (a.flag r c)) (hng : flagged (b.flag r c) = false)
       (q : Rat) (hd : b.disp r c = .num q)
@@ -252,12 +253,30 @@ theorem pixelOK_of_outcome {meth : Method} {off : Nat} {a b : DMap} {r c : Nat}
     · left; simp at hbo; by_cases h0 : off = 0
       · exact Or.inl h0
       · exact Or.inr (hbo (Nat.pos_of_ne_zero h0))
-  | unfilled hf hb hs hm hk hg =>
-    subst hm
-    refine ⟨?_, ?_, ?_, ?_, ?_, ?_, ?_, ?_, ?_⟩ <;>
-      simp only [Clause.ok, cUnflagged, cFilledBits, cFilledFinite, cFilledFromValid, cFilledBetween, cNoSource,
-        cFilledWhenSource, cSgmMismatch, cBorder, viewAt, View.filled, hf, hg, hb, hs, hk, unfilledFlag,
-        enoughSources, isInvalid_of_flagged hf] <;> simp
+  | unfilled hf hb hs hg hfg =>
+    refine ⟨?_, ?_, ?_, ?_, ?_, ?_, ?_, ?_, ?_⟩
+    · simp [Clause.ok, cUnflagged, viewAt, hf]
+    · simp [Clause.ok, cFilledBits, viewAt, hg]
+    · simp [Clause.ok, cFilledFinite, viewAt, View.filled, hf, hfg]
+    · simp [Clause.ok, cFilledFromValid, viewAt, View.filled, hf, hfg]
+    · simp [Clause.ok, cFilledBetween, viewAt, View.filled, hf, hfg]
+    · simp [Clause.ok, cNoSource, viewAt, hfg, isInvalid_of_flagged hfg]
+    · simp [Clause.ok, cFilledWhenSource, viewAt, hs]
+    · simp only [Clause.ok, cSgmMismatch, viewAt, hb, hg]
+      cases meth with
+      | mccnn => simp
+      | sgm =>
+        by_cases h9 : hasBit (a.flag r c) mismatch = true
+        · by_cases h8 : hasBit (a.flag r c) occlusion = true
+          · simp [h8]
+          · simp only [Bool.not_eq_true] at h8
+            by_cases ht : touchesOcclusion a r c = true
+            · simp [kindOf, h8, h9, ht, unfilledFlag]
+            · simp only [Bool.not_eq_true] at ht
+              simp [kindOf, h8, h9, ht, unfilledFlag]
+        · simp only [Bool.not_eq_true] at h9
+          simp [h9]
+    · simp [Clause.ok, cBorder, viewAt, hb]
   | filled hf hb hg hng q hd hv hbd he =>
     have hne : (sourcesOf meth a b r c).isEmpty = false := by
       have := enoughSources_pos he
@@ -388,8 +407,9 @@ theorem mccnn_outcome (hwf : WFp .mccnn off a) {r c : Nat} (hr : r < a.rows) (hc
     obtain ⟨hs, hn⟩ := occlMc_flagged a r c hc h8
     cases hsrc : sourceOcclMc a r c with
     | none =>
-      refine Outcome.unfilled hfl hnb ?_ rfl hk (by rw [hb2, (hn hsrc).2])
-      simp [sourcesOf, hk, hsrc, nums]
+      have hg0 : (mccnn off a).flag r c = a.flag r c := by rw [hb2, (hn hsrc).2]
+      refine Outcome.unfilled hfl hnb ?_ (by rw [hk, hg0]; rfl) (by rw [hg0]; exact hfl)
+      simp [sourcesOf, hk, hsrc, nums, enoughSources]
     | some v =>
       obtain ⟨j, hj, hvj, hdj⟩ := sourceOcclMc_pixel hc hsrc
       obtain ⟨q, hq⟩ := hwf.vf r j hr hj hvj
@@ -930,5 +950,505 @@ example : wf .sgm 1 exOkSgm = true ∧ noTrigger .sgm exOkSgm = true
     ∧ (sgm exOkSgm).disp 2 2 = .num 2 ∧ (sgm exOkSgm).flag 2 2 = 16
     ∧ (sgm exOkSgm).disp 3 3 = .num (-2) ∧ (sgm exOkSgm).flag 3 3 = 16
     ∧ spec .sgm 1 exOkSgm (interpolate .sgm 1 exOkSgm) = true := by decide
+
+
+/-! ### 10. The code with `proposed_fixes/C14-fill-from-nothing.diff` applied satisfies the full-strength
+    statement (`Model/InterpRepaired.lean`, variant `guard`) -/
+
+namespace R
+open Pandora.Interp.Repaired
+
+/-- the variant with the first patch only -/
+def vg : Variant := { guard := true, bitops := false }
+
+theorem upd_vg (f old new : Nat) : upd vg f old new = f - old + new := rfl
+
+theorem scanLoopI_eq (init : Val) (m : DMap) (pos : Nat → Int × Int) : ∀ fuel i, scanLoopI init m pos fuel i =
+    match (List.range' i fuel).find? (stopAt m pos) with
+    | none => init
+    | some j => if m.inside (pos j) then m.dispAt (pos j) else .nan := by
+  intro fuel
+  induction fuel with
+  | zero => intro i; simp [scanLoopI]
+  | succ n ih =>
+    intro i
+    rw [List.range'_succ, List.find?_cons]
+    unfold scanLoopI
+    by_cases hin : m.inside (pos i) = true
+    · by_cases hv : m.validAt (pos i) = true
+      · simp [stopAt, hin, hv]
+      · simp only [Bool.not_eq_true] at hv
+        simp [stopAt, hin, hv, ih (i + 1)]
+    · simp only [Bool.not_eq_true] at hin
+      simp [stopAt, hin]
+
+/-- with a NaN-initialised accumulator the mc-cnn scan is exactly "first valid pixel of the ray, or NaN" -/
+theorem scanMcR_eq (m : DMap) (r c : Nat) (hr : r < m.rows) (hc : c < m.cols) (d : Int × Int) (hd : d ∈ dirs16) :
+    scanLoopI .nan m (posMc r c d) (max m.cols m.rows - 1) 1 = (firstValid m (rayPts m (posMc r c d))).getD .nan := by
+  have hM : max m.cols m.rows = (max m.cols m.rows - 1) + 1 := by
+    have : 1 ≤ max m.cols m.rows := Nat.le_trans (by omega) (Nat.le_max_left m.cols m.rows)
+    omega
+  rw [scanLoopI_eq, firstValid_rayPts]
+  generalize hS : List.range' 1 (max m.cols m.rows - 1) = S
+  have hfull : List.range' 1 (max m.cols m.rows) = S ++ [max m.cols m.rows] := by
+    rw [← hS]; conv => lhs; rw [hM]
+    rw [List.range'_concat]; simp; omega
+  rw [hfull, List.find?_append]
+  cases hf : S.find? (stopAt m (posMc r c d)) with
+  | none =>
+    have hout := ray_leaves_mc hr hc hd (Nat.le_refl (max m.cols m.rows))
+    simp [stopAt, hout]
+  | some j =>
+    simp only [Option.some_or]
+    by_cases hin : m.inside (posMc r c d j) = true <;> simp [hin]
+
+theorem occlMcPixelR_eq (m : DMap) (r c : Nat) : Repaired.occlMcPixel vg m r c = Interp.occlMcPixel m r c := by
+  unfold Repaired.occlMcPixel Interp.occlMcPixel
+  simp only [upd_vg]
+  split
+  · split
+    · cases (List.map (fun k => m.valid r (c + k)) (List.range (m.cols - c))).getD
+        (argmaxBool (List.map (fun k => m.valid r (c + k)) (List.range (m.cols - c)))) false <;> simp [b2n]
+    · cases (List.map (fun j => m.valid r j) (List.range (c + 1))).reverse.getD
+        (argmaxBool (List.map (fun j => m.valid r j) (List.range (c + 1))).reverse) false <;> simp [b2n]
+  · rfl
+
+theorem firstPass_mccnnR (a : DMap) : lift (Repaired.occlMcPixel vg) a = occlMc a := by
+  unfold lift occlMc
+  congr 1 <;> funext r c <;> rw [occlMcPixelR_eq]
+
+theorem mismMcR_unflagged (m : DMap) (r c : Nat) (h : (m.flag r c).testBit 9 = false) :
+    (lift (Repaired.mismMcPixel vg) m).disp r c = m.disp r c ∧ (lift (Repaired.mismMcPixel vg) m).flag r c = m.flag r c := by
+  have : ((m.flag r c &&& mismatch) != 0) = false := by
+    have := hasBit_mismatch (m.flag r c); unfold hasBit at this; rw [this, h]
+  simp only [lift, Repaired.mismMcPixel, this, Bool.false_eq_true, if_false, and_self]
+
+/-- repaired mc-cnn mismatch: no source → untouched; otherwise the median of the sources, bit 9 → bit 5 -/
+theorem mismMcR_flagged (m : DMap) (r c : Nat) (hr : r < m.rows) (hc : c < m.cols) (h : (m.flag r c).testBit 9 = true) :
+    (nums (sourcesMc m r c) = [] →
+      (lift (Repaired.mismMcPixel vg) m).disp r c = m.disp r c ∧ (lift (Repaired.mismMcPixel vg) m).flag r c = m.flag r c) ∧
+    (nums (sourcesMc m r c) ≠ [] →
+      (lift (Repaired.mismMcPixel vg) m).disp r c = median (nums (sourcesMc m r c))
+      ∧ (lift (Repaired.mismMcPixel vg) m).flag r c = m.flag r c - mismatch + filledMismatch) := by
+  have h9 : ((m.flag r c &&& mismatch) != 0) = true := by
+    have := hasBit_mismatch (m.flag r c); unfold hasBit at this; rw [this, h]
+  have hint : (dirs16.map fun d => scanLoopI .nan m (posMc r c d) (max m.cols m.rows - 1) 1)
+      = dirs16.map fun d => (firstValid m (rayPts m (posMc r c d))).getD .nan := by
+    apply List.map_congr_left; intro d hd; exact scanMcR_eq m r c hr hc d hd
+  have hn : nums (dirs16.map fun d => scanLoopI .nan m (posMc r c d) (max m.cols m.rows - 1) 1) = nums (sourcesMc m r c) := by
+    rw [hint, nums_map_getD]; rfl
+  simp only [lift, Repaired.mismMcPixel, h9, if_true, vg, upd, Bool.true_and, Bool.false_eq_true, if_false, nanmedian]
+  rw [hn]
+  constructor
+  · intro h0; simp [h0]
+  · intro h0
+    have : (nums (sourcesMc m r c)).isEmpty = false := by
+      cases hl : nums (sourcesMc m r c) with
+      | nil => exact absurd hl h0
+      | cons x t => rfl
+    simp [this]
+
+section mccnnR
+variable {off : Nat} {a : DMap}
+
+theorem mccnnR_disp (off : Nat) (a : DMap) (r c : Nat) :
+    (Repaired.interpolate vg .mccnn off a).disp r c = (lift (Repaired.mismMcPixel vg) (occlMc a)).disp r c := by
+  show (maskBorder off (lift (Repaired.mismMcPixel vg) (lift (Repaired.occlMcPixel vg) a))).disp r c = _
+  rw [firstPass_mccnnR]; rfl
+
+theorem mccnnR_flag (off : Nat) (a : DMap) (r c : Nat) :
+    (Repaired.interpolate vg .mccnn off a).flag r c =
+      if (decide (off > 0) && isBorder a off r c) = true then leftNodataOrBorder
+      else (lift (Repaired.mismMcPixel vg) (occlMc a)).flag r c := by
+  show (maskBorder off (lift (Repaired.mismMcPixel vg) (lift (Repaired.occlMcPixel vg) a))).flag r c = _
+  rw [firstPass_mccnnR]; rfl
+
+theorem mccnnR_at_occl (hwf : WFp .mccnn off a) {r c : Nat} (hr : r < a.rows) (hc : c < a.cols)
+    (h8 : (a.flag r c).testBit 8 = true) :
+    (Repaired.interpolate vg .mccnn off a).disp r c = (occlMc a).disp r c
+    ∧ (Repaired.interpolate vg .mccnn off a).flag r c = (occlMc a).flag r c := by
+  have h9 : (a.flag r c).testBit 9 = false := hwf.one r c hr hc h8
+  have h4 : (a.flag r c).testBit 4 = false := hwf.st8 r c hr hc h8
+  have hnb := not_border_of_bit hwf hr hc one_testBit8 h8
+  have hm1 : ((occlMc a).flag r c).testBit 9 = false := by
+    obtain ⟨hs, hn⟩ := occlMc_flagged a r c hc h8
+    cases hsrc : sourceOcclMc a r c with
+    | none => rw [(hn hsrc).2]; exact h9
+    | some v =>
+      rw [(hs v hsrc).2, fill_occl h8 h4, occlusion_pow, filledOcclusion_pow, testBit_replaceBit]; simp [h9]
+  have := mismMcR_unflagged (occlMc a) r c hm1
+  rw [mccnnR_disp, mccnnR_flag, hnb]
+  exact ⟨this.1, by simpa using this.2⟩
+
+theorem midOf_mccnnR_agree (hwf : WFp .mccnn off a) :
+    Agree (midOf .mccnn a (Repaired.interpolate vg .mccnn off a)) (occlMc a) := by
+  refine ⟨rfl, rfl, ?_, ?_⟩
+  · intro r c hr hc
+    simp only [midOf, hasBit_occlusion]
+    by_cases h8 : (a.flag r c).testBit 8 = true
+    · simp [h8, (mccnnR_at_occl hwf hr hc h8).1]
+    · simp only [Bool.not_eq_true] at h8
+      simp [h8, (occlMc_unflagged a r c h8).1]
+  · intro r c hr hc
+    simp only [midOf, hasBit_occlusion]
+    by_cases h8 : (a.flag r c).testBit 8 = true
+    · simp [h8, (mccnnR_at_occl hwf hr hc h8).2]
+    · simp only [Bool.not_eq_true] at h8
+      simp [h8, (occlMc_unflagged a r c h8).2]
+
+theorem mccnnR_outcome (hwf : WFp .mccnn off a) {r c : Nat} (hr : r < a.rows) (hc : c < a.cols) :
+    Outcome .mccnn off a (Repaired.interpolate vg .mccnn off a) r c := by
+  by_cases h8 : (a.flag r c).testBit 8 = true
+  · have h9 : (a.flag r c).testBit 9 = false := hwf.one r c hr hc h8
+    have h4 : (a.flag r c).testBit 4 = false := hwf.st8 r c hr hc h8
+    have hnb := not_border_of_bit hwf hr hc one_testBit8 h8
+    have hfl : flagged (a.flag r c) = true := by rw [flagged_eq, h8]; rfl
+    have hk : kindOf .mccnn a r c = .occl := by simp [kindOf, hasBit_occlusion, h8]
+    obtain ⟨hb1, hb2⟩ := mccnnR_at_occl hwf hr hc h8
+    obtain ⟨hs, hn⟩ := occlMc_flagged a r c hc h8
+    cases hsrc : sourceOcclMc a r c with
+    | none =>
+      have hg0 : (Repaired.interpolate vg .mccnn off a).flag r c = a.flag r c := by rw [hb2, (hn hsrc).2]
+      refine Outcome.unfilled hfl hnb ?_ (by rw [hk, hg0]; rfl) (by rw [hg0]; exact hfl)
+      simp [sourcesOf, hk, hsrc, nums, enoughSources]
+    | some v =>
+      obtain ⟨j, hj, hvj, hdj⟩ := sourceOcclMc_pixel hc hsrc
+      obtain ⟨q, hq⟩ := hwf.vf r j hr hj hvj
+      have hvq : v = .num q := hdj.symm.trans hq
+      have hg : (Repaired.interpolate vg .mccnn off a).flag r c = replaceBit (a.flag r c) occlusion filledOcclusion := by
+        rw [hb2, (hs v hsrc).2, fill_occl h8 h4]
+      have hsrcs : sourcesOf .mccnn a (Repaired.interpolate vg .mccnn off a) r c = [q] := by
+        simp [sourcesOf, hk, hsrc, hvq, nums]
+      refine Outcome.filled hfl hnb (by rw [hk]; exact hg) ?_ q (by rw [hb1, (hs v hsrc).1, hvq]) ?_ ?_ ?_
+      · rw [hg, flagged_eq, occlusion_pow, filledOcclusion_pow, testBit_replaceBit, testBit_replaceBit]; simp [h9]
+      · rw [hk, hsrcs]; simp [valueOK]
+      · rw [betweenValid_iff]; exact Bdd.self hr hj hvj hq
+      · rw [hk, hsrcs]; simp [enoughSources]
+  · simp only [Bool.not_eq_true] at h8
+    obtain ⟨ho1, ho2⟩ := occlMc_unflagged a r c h8
+    by_cases h9 : (a.flag r c).testBit 9 = true
+    · have h5 : (a.flag r c).testBit 5 = false := hwf.st9 r c hr hc h9
+      have hnb := not_border_of_bit hwf hr hc one_testBit9 h9
+      have hfl : flagged (a.flag r c) = true := by rw [flagged_eq, h9]; simp
+      have hk : kindOf .mccnn a r c = .mism := by simp [kindOf, hasBit_occlusion, hasBit_mismatch, h8, h9]
+      have h9' : ((occlMc a).flag r c).testBit 9 = true := by rw [ho2]; exact h9
+      have hsrcs : sourcesOf .mccnn a (Repaired.interpolate vg .mccnn off a) r c = nums (sourcesMc (occlMc a) r c) := by
+        simp only [sourcesOf, hk]
+        rw [sourcesMc_congr (midOf_mccnnR_agree hwf)]
+      obtain ⟨hempty, hfill⟩ := mismMcR_flagged (occlMc a) r c hr hc h9'
+      by_cases hne : nums (sourcesMc (occlMc a) r c) = []
+      · have hg0 : (Repaired.interpolate vg .mccnn off a).flag r c = a.flag r c := by
+          rw [mccnnR_flag, hnb]; simp only [Bool.false_eq_true, if_false]; rw [(hempty hne).2, ho2]
+        refine Outcome.unfilled hfl hnb ?_ (by rw [hk, hg0]; rfl) (by rw [hg0]; exact hfl)
+        rw [hk, hsrcs, hne]; simp [enoughSources]
+      · have hg : (Repaired.interpolate vg .mccnn off a).flag r c = replaceBit (a.flag r c) mismatch filledMismatch := by
+          rw [mccnnR_flag, hnb]; simp only [Bool.false_eq_true, if_false]
+          rw [(hfill hne).2, ho2, fill_mism h9 h5]
+        have hd : (Repaired.interpolate vg .mccnn off a).disp r c = median (nums (sourcesMc (occlMc a) r c)) := by
+          rw [mccnnR_disp]; exact (hfill hne).1
+        cases hmed : median (nums (sourcesMc (occlMc a) r c)) with
+        | nan => exact absurd ((median_eq_nan_iff _).mp hmed) hne
+        | num q =>
+          refine Outcome.filled hfl hnb (by rw [hk]; exact hg) ?_ q (by rw [hd, hmed]) ?_ ?_ ?_
+          · rw [hg, flagged_eq, mismatch_pow, filledMismatch_pow, testBit_replaceBit, testBit_replaceBit]; simp [h8]
+          · rw [hk, hsrcs]; simp [valueOK, hmed]
+          · rw [betweenValid_iff]; exact Bdd.median (mc_sources_bdd r c) hmed
+          · rw [hk, hsrcs]; simp only [enoughSources, decide_eq_true_eq]
+            cases hl : nums (sourcesMc (occlMc a) r c) with
+            | nil => exact absurd hl hne
+            | cons x t => simp
+    · simp only [Bool.not_eq_true] at h9
+      have hfl : flagged (a.flag r c) = false := by rw [flagged_eq, h8, h9]; rfl
+      have h9' : ((occlMc a).flag r c).testBit 9 = false := by rw [ho2]; exact h9
+      obtain ⟨hm1, hm2⟩ := mismMcR_unflagged (occlMc a) r c h9'
+      refine Outcome.untouched hfl (by rw [mccnnR_disp, hm1, ho1]) ?_ (hwf.bc r c hr hc)
+      rw [mccnnR_flag]
+      by_cases hb : (decide (off > 0) && isBorder a off r c) = true
+      · rw [if_pos hb, hwf.bc r c hr hc hb]
+      · rw [if_neg hb, hm2, ho2]
+
+end mccnnR
+
+section sgmR
+variable {off : Nat} {a : DMap}
+
+theorem mismSgmR_unflagged (m : DMap) (r c : Nat) (h : (m.flag r c).testBit 9 = false) :
+    (lift (Repaired.mismSgmPixel vg) m).disp r c = m.disp r c ∧ (lift (Repaired.mismSgmPixel vg) m).flag r c = m.flag r c := by
+  have : ((m.flag r c &&& mismatch) != 0) = false := by
+    have := hasBit_mismatch (m.flag r c); unfold hasBit at this; rw [this, h]
+  simp only [lift, Repaired.mismSgmPixel, this, Bool.false_eq_true, if_false, and_self]
+
+theorem mismSgmR_touch (m : DMap) (r c : Nat) (hr : r < m.rows) (hc : c < m.cols) (h : (m.flag r c).testBit 9 = true)
+    (ht : touchesOcclusion m r c = true) :
+    (lift (Repaired.mismSgmPixel vg) m).disp r c = m.disp r c
+    ∧ (lift (Repaired.mismSgmPixel vg) m).flag r c = m.flag r c - mismatch + occlusion := by
+  have h9 : ((m.flag r c &&& mismatch) != 0) = true := by
+    have := hasBit_mismatch (m.flag r c); unfold hasBit at this; rw [this, h]
+  have h3 := occlusionSum3x3_ne_zero m r c hr hc
+  rw [ht] at h3
+  simp only [lift, Repaired.mismSgmPixel, h9, h3, if_true, upd_vg, and_self]
+
+theorem mismSgmR_fill (m : DMap) (r c : Nat) (hr : r < m.rows) (hc : c < m.cols) (h : (m.flag r c).testBit 9 = true)
+    (ht : touchesOcclusion m r c = false) :
+    (nums (sourcesSgm m r c) = [] →
+      (lift (Repaired.mismSgmPixel vg) m).disp r c = m.disp r c ∧ (lift (Repaired.mismSgmPixel vg) m).flag r c = m.flag r c) ∧
+    (nums (sourcesSgm m r c) ≠ [] →
+      (lift (Repaired.mismSgmPixel vg) m).disp r c = median (nums (sourcesSgm m r c))
+      ∧ (lift (Repaired.mismSgmPixel vg) m).flag r c = m.flag r c - mismatch + filledMismatch) := by
+  have h9 : ((m.flag r c &&& mismatch) != 0) = true := by
+    have := hasBit_mismatch (m.flag r c); unfold hasBit at this; rw [this, h]
+  have h3 := occlusionSum3x3_ne_zero m r c hr hc
+  rw [ht] at h3
+  have hn : nums (findValidNeighbors m r c) = nums (sourcesSgm m r c) := by
+    rw [findValidNeighbors_eq m r c hr hc, nums_map_getD]; rfl
+  simp only [lift, Repaired.mismSgmPixel, h9, h3, if_true, Bool.false_eq_true, if_false, vg, upd, Bool.true_and, nanmedian]
+  rw [hn]
+  constructor
+  · intro h0; simp [h0]
+  · intro h0
+    have : (nums (sourcesSgm m r c)).isEmpty = false := by
+      cases hl : nums (sourcesSgm m r c) with
+      | nil => exact absurd hl h0
+      | cons x t => rfl
+    simp [this]
+
+theorem occlSgmR_unflagged (m : DMap) (r c : Nat) (h : (m.flag r c).testBit 8 = false) :
+    (lift (Repaired.occlSgmPixel vg) m).disp r c = m.disp r c ∧ (lift (Repaired.occlSgmPixel vg) m).flag r c = m.flag r c := by
+  have : ((m.flag r c &&& occlusion) != 0) = false := by
+    have := hasBit_occlusion (m.flag r c); unfold hasBit at this; rw [this, h]
+  simp only [lift, Repaired.occlSgmPixel, this, Bool.false_eq_true, if_false, and_self]
+
+theorem occlSgmR_flagged (m : DMap) (r c : Nat) (hr : r < m.rows) (hc : c < m.cols) (h : (m.flag r c).testBit 8 = true) :
+    ((nums (sourcesSgm m r c)).length < 2 →
+      (lift (Repaired.occlSgmPixel vg) m).disp r c = m.disp r c ∧ (lift (Repaired.occlSgmPixel vg) m).flag r c = m.flag r c) ∧
+    (2 ≤ (nums (sourcesSgm m r c)).length →
+      (∃ q, (lift (Repaired.occlSgmPixel vg) m).disp r c = .num q ∧ isSecondLowestAbs (nums (sourcesSgm m r c)) q = true)
+      ∧ (lift (Repaired.occlSgmPixel vg) m).flag r c = m.flag r c - occlusion + filledOcclusion) := by
+  have h8 : ((m.flag r c &&& occlusion) != 0) = true := by
+    have := hasBit_occlusion (m.flag r c); unfold hasBit at this; rw [this, h]
+  have hn : nums (findValidNeighbors m r c) = nums (sourcesSgm m r c) := by
+    rw [findValidNeighbors_eq m r c hr hc, nums_map_getD]; rfl
+  simp only [lift, Repaired.occlSgmPixel, h8, if_true, vg, upd, Bool.true_and, Bool.false_eq_true, if_false]
+  rw [hn]
+  constructor
+  · intro hlt; simp [hlt]
+  · intro h2
+    have : ¬ (nums (sourcesSgm m r c)).length < 2 := by omega
+    simp only [this, decide_false, Bool.false_eq_true, if_false, and_true]
+    rw [← hn] at h2 ⊢
+    exact secondLowestAbs_spec _ h2
+
+theorem sgmR_eq (off : Nat) (a : DMap) :
+    Repaired.interpolate vg .sgm off a = lift (Repaired.occlSgmPixel vg) (lift (Repaired.mismSgmPixel vg) a) := rfl
+
+/-- a mismatch not touching an occlusion: what the repaired first pass produced is final -/
+theorem sgmR_at_mism (hwf : WFp .sgm off a) {r c : Nat} (hr : r < a.rows) (hc : c < a.cols)
+    (h9 : (a.flag r c).testBit 9 = true) (ht : touchesOcclusion a r c = false) :
+    (Repaired.interpolate vg .sgm off a).disp r c = (lift (Repaired.mismSgmPixel vg) a).disp r c
+    ∧ (Repaired.interpolate vg .sgm off a).flag r c = (lift (Repaired.mismSgmPixel vg) a).flag r c := by
+  have h8 := bit8_false_of_bit9 hwf hr hc h9
+  have h5 := hwf.st9 r c hr hc h9
+  obtain ⟨he, hf⟩ := mismSgmR_fill a r c hr hc h9 ht
+  have : ((lift (Repaired.mismSgmPixel vg) a).flag r c).testBit 8 = false := by
+    by_cases h0 : nums (sourcesSgm a r c) = []
+    · rw [(he h0).2]; exact h8
+    · rw [(hf h0).2, fill_mism h9 h5, mismatch_pow, filledMismatch_pow, testBit_replaceBit]; simp [h8]
+  rw [sgmR_eq]
+  exact occlSgmR_unflagged _ r c this
+
+theorem midOf_sgmR_agree (hwf : WFp .sgm off a) :
+    Agree (midOf .sgm a (Repaired.interpolate vg .sgm off a)) (lift (Repaired.mismSgmPixel vg) a) := by
+  refine ⟨rfl, rfl, ?_, ?_⟩
+  · intro r c hr hc
+    by_cases h9 : (a.flag r c).testBit 9 = true
+    · have h8 := bit8_false_of_bit9 hwf hr hc h9
+      cases ht : touchesOcclusion a r c
+      · have hk : kindOf .sgm a r c = .mism := by rw [kindOf_sgm_mism h8 h9, ht]; rfl
+        simp only [midOf, hk, if_true]
+        exact (sgmR_at_mism hwf hr hc h9 ht).1
+      · have hk : kindOf .sgm a r c = .mismAsOccl := by rw [kindOf_sgm_mism h8 h9, ht]; rfl
+        simp only [midOf, hk]
+        rw [(mismSgmR_touch a r c hr hc h9 ht).1]; simp
+    · simp only [Bool.not_eq_true] at h9
+      have hk : kindOf .sgm a r c ≠ .mism := by
+        simp only [kindOf, hasBit_occlusion, hasBit_mismatch, h9]
+        cases (a.flag r c).testBit 8 <;> simp
+      simp only [midOf, hk, if_false]
+      exact (mismSgmR_unflagged a r c h9).1.symm
+  · intro r c hr hc
+    by_cases h9 : (a.flag r c).testBit 9 = true
+    · have h8 := bit8_false_of_bit9 hwf hr hc h9
+      cases ht : touchesOcclusion a r c
+      · have hk : kindOf .sgm a r c = .mism := by rw [kindOf_sgm_mism h8 h9, ht]; rfl
+        simp only [midOf, hk]
+        exact (sgmR_at_mism hwf hr hc h9 ht).2
+      · have hk : kindOf .sgm a r c = .mismAsOccl := by rw [kindOf_sgm_mism h8 h9, ht]; rfl
+        simp only [midOf, hk]
+        rw [(mismSgmR_touch a r c hr hc h9 ht).2, mism_to_occl h9 h8]
+    · simp only [Bool.not_eq_true] at h9
+      have := (mismSgmR_unflagged a r c h9).2
+      simp only [midOf, kindOf, hasBit_occlusion, hasBit_mismatch, h9]
+      cases (a.flag r c).testBit 8 <;> simp [this]
+
+theorem mismSgmR_valid_bdd (hwf : WFp .sgm off a) {r c : Nat} (hr : r < a.rows) (hc : c < a.cols)
+    (hv : (lift (Repaired.mismSgmPixel vg) a).valid r c = true) {q : Rat}
+    (hd : (lift (Repaired.mismSgmPixel vg) a).disp r c = .num q) : Bdd a q := by
+  by_cases h9 : (a.flag r c).testBit 9 = true
+  · have h8 := bit8_false_of_bit9 hwf hr hc h9
+    cases ht : touchesOcclusion a r c
+    · obtain ⟨he, hf⟩ := mismSgmR_fill a r c hr hc h9 ht
+      by_cases h0 : nums (sourcesSgm a r c) = []
+      · exfalso
+        have : (lift (Repaired.mismSgmPixel vg) a).valid r c = false := by
+          apply not_valid_of_bit9; rw [(he h0).2]; exact h9
+        rw [this] at hv; cases hv
+      · rw [(hf h0).1] at hd
+        exact Bdd.median (sgm_input_sources_bdd r c) hd
+    · exfalso
+      have : (lift (Repaired.mismSgmPixel vg) a).valid r c = false := by
+        apply not_valid_of_bit8
+        rw [(mismSgmR_touch a r c hr hc h9 ht).2, mism_to_occl h9 h8, mismatch_pow, occlusion_pow, testBit_replaceBit]
+        simp
+      rw [this] at hv; cases hv
+  · simp only [Bool.not_eq_true] at h9
+    have := mismSgmR_unflagged a r c h9
+    unfold DMap.valid at hv
+    rw [this.2] at hv; rw [this.1] at hd
+    exact Bdd.self hr hc hv hd
+
+theorem sgmR_sources_bdd (hwf : WFp .sgm off a) (r c : Nat) :
+    ∀ q ∈ nums (sourcesSgm (lift (Repaired.mismSgmPixel vg) a) r c), Bdd a q := by
+  intro q hq
+  rw [mem_nums] at hq
+  unfold sourcesSgm at hq
+  rw [List.mem_filterMap] at hq
+  obtain ⟨d, _, hd⟩ := hq
+  obtain ⟨r', c', hr', hc', hv, hdisp⟩ := ray_source_pixel hd
+  exact mismSgmR_valid_bdd hwf hr' hc' hv hdisp
+
+/-- a pixel handled as an occlusion (bit 8 after the repaired first pass): filled from two or more
+    sources, left as it is otherwise -/
+theorem sgmR_occl (hwf : WFp .sgm off a) {r c : Nat} (hr : r < a.rows) (hc : c < a.cols)
+    (hk : kindOf .sgm a r c = .occl ∨ kindOf .sgm a r c = .mismAsOccl)
+    (hfl : flagged (a.flag r c) = true) (hnb : (decide (off > 0) && isBorder a off r c) = false)
+    (h8 : ((lift (Repaired.mismSgmPixel vg) a).flag r c).testBit 8 = true)
+    (h4 : ((lift (Repaired.mismSgmPixel vg) a).flag r c).testBit 4 = false)
+    (hun : (lift (Repaired.mismSgmPixel vg) a).flag r c = unfilledFlag (kindOf .sgm a r c) (a.flag r c))
+    (hfi : replaceBit ((lift (Repaired.mismSgmPixel vg) a).flag r c) occlusion filledOcclusion
+            = filledFlag (kindOf .sgm a r c) (a.flag r c))
+    (hnf : flagged (filledFlag (kindOf .sgm a r c) (a.flag r c)) = false) :
+    Outcome .sgm off a (Repaired.interpolate vg .sgm off a) r c := by
+  have hsrcs : sourcesOf .sgm a (Repaired.interpolate vg .sgm off a) r c
+      = nums (sourcesSgm (lift (Repaired.mismSgmPixel vg) a) r c) := by
+    rcases hk with hk | hk <;> simp only [sourcesOf, hk] <;> rw [sourcesSgm_congr (midOf_sgmR_agree hwf)]
+  obtain ⟨hlt, hge⟩ := occlSgmR_flagged (lift (Repaired.mismSgmPixel vg) a) r c hr hc h8
+  by_cases h2 : 2 ≤ (nums (sourcesSgm (lift (Repaired.mismSgmPixel vg) a) r c)).length
+  · obtain ⟨⟨q, hq, hs⟩, hg⟩ := hge h2
+    have hg' : (Repaired.interpolate vg .sgm off a).flag r c = filledFlag (kindOf .sgm a r c) (a.flag r c) := by
+      rw [sgmR_eq, hg, fill_occl h8 h4, hfi]
+    refine Outcome.filled hfl hnb hg' (by rw [hg']; exact hnf) q (by rw [sgmR_eq]; exact hq) ?_ ?_ ?_
+    · rw [hsrcs]; rcases hk with hk | hk <;> simp [hk, valueOK, hs]
+    · rw [betweenValid_iff]; exact sgmR_sources_bdd hwf r c q (isSecondLowestAbs_mem hs)
+    · rw [hsrcs]; rcases hk with hk | hk <;> simpa [hk, enoughSources] using h2
+  · have hlt' : (nums (sourcesSgm (lift (Repaired.mismSgmPixel vg) a) r c)).length < 2 := by omega
+    have hg' : (Repaired.interpolate vg .sgm off a).flag r c = unfilledFlag (kindOf .sgm a r c) (a.flag r c) := by
+      rw [sgmR_eq, (hlt hlt').2, hun]
+    refine Outcome.unfilled hfl hnb ?_ hg' ?_
+    · rw [hsrcs]; rcases hk with hk | hk <;> simpa [hk, enoughSources] using hlt'
+    · rw [sgmR_eq, (hlt hlt').2, flagged_eq, h8]; rfl
+
+theorem sgmR_outcome (hwf : WFp .sgm off a) {r c : Nat} (hr : r < a.rows) (hc : c < a.cols) :
+    Outcome .sgm off a (Repaired.interpolate vg .sgm off a) r c := by
+  have hborder : ∀ k, (leftNodataOrBorder).testBit k = false → (a.flag r c).testBit k = true →
+      (decide (off > 0) && isBorder a off r c) = false := by
+    intro k h1 hk
+    cases hb : (decide (off > 0) && isBorder a off r c)
+    · rfl
+    · have := hwf.bc r c hr hc hb; rw [this, h1] at hk; cases hk
+  by_cases h8 : (a.flag r c).testBit 8 = true
+  · -- occlusion
+    have h9 : (a.flag r c).testBit 9 = false := hwf.one r c hr hc h8
+    have h4 : (a.flag r c).testBit 4 = false := hwf.st8 r c hr hc h8
+    have hfl : flagged (a.flag r c) = true := by rw [flagged_eq, h8]; rfl
+    have hk : kindOf .sgm a r c = .occl := by simp [kindOf, hasBit_occlusion, h8]
+    obtain ⟨_, hm2⟩ := mismSgmR_unflagged a r c h9
+    refine sgmR_occl hwf hr hc (Or.inl hk) hfl (hborder 8 one_testBit8 h8) (by rw [hm2]; exact h8)
+      (by rw [hm2]; exact h4) (by rw [hm2, hk]; rfl) (by rw [hm2, hk]; rfl) ?_
+    rw [hk]; simp only [filledFlag]
+    rw [flagged_eq, occlusion_pow, filledOcclusion_pow, testBit_replaceBit, testBit_replaceBit]; simp [h9]
+  · simp only [Bool.not_eq_true] at h8
+    by_cases h9 : (a.flag r c).testBit 9 = true
+    · have h5 : (a.flag r c).testBit 5 = false := hwf.st9 r c hr hc h9
+      have h4 : (a.flag r c).testBit 4 = false := hwf.st9s rfl r c hr hc h9
+      have hnb := hborder 9 one_testBit9 h9
+      have hfl : flagged (a.flag r c) = true := by rw [flagged_eq, h9]; simp
+      cases ht : touchesOcclusion a r c
+      · -- plain mismatch
+        have hk : kindOf .sgm a r c = .mism := by rw [kindOf_sgm_mism h8 h9, ht]; rfl
+        obtain ⟨hb1, hb2⟩ := sgmR_at_mism hwf hr hc h9 ht
+        obtain ⟨he, hf⟩ := mismSgmR_fill a r c hr hc h9 ht
+        have hsrcs : sourcesOf .sgm a (Repaired.interpolate vg .sgm off a) r c = nums (sourcesSgm a r c) := by
+          simp only [sourcesOf, hk]
+        by_cases hne : nums (sourcesSgm a r c) = []
+        · have hg0 : (Repaired.interpolate vg .sgm off a).flag r c = a.flag r c := by rw [hb2, (he hne).2]
+          refine Outcome.unfilled hfl hnb ?_ (by rw [hk, hg0]; rfl) (by rw [hg0]; exact hfl)
+          rw [hk, hsrcs, hne]; simp [enoughSources]
+        · have hg : (Repaired.interpolate vg .sgm off a).flag r c = replaceBit (a.flag r c) mismatch filledMismatch := by
+            rw [hb2, (hf hne).2, fill_mism h9 h5]
+          cases hmed : median (nums (sourcesSgm a r c)) with
+          | nan => exact absurd ((median_eq_nan_iff _).mp hmed) hne
+          | num q =>
+            refine Outcome.filled hfl hnb (by rw [hk]; exact hg) ?_ q (by rw [hb1, (hf hne).1, hmed]) ?_ ?_ ?_
+            · rw [hg, flagged_eq, mismatch_pow, filledMismatch_pow, testBit_replaceBit, testBit_replaceBit]; simp [h8]
+            · rw [hk, hsrcs]; simp [valueOK, hmed]
+            · rw [betweenValid_iff]; exact Bdd.median (sgm_input_sources_bdd r c) hmed
+            · rw [hk, hsrcs]; simp only [enoughSources, decide_eq_true_eq]
+              cases hl : nums (sourcesSgm a r c) with
+              | nil => exact absurd hl hne
+              | cons x t => simp
+      · -- mismatch touching an occlusion
+        have hk : kindOf .sgm a r c = .mismAsOccl := by rw [kindOf_sgm_mism h8 h9, ht]; rfl
+        obtain ⟨_, hm2⟩ := mismSgmR_touch a r c hr hc h9 ht
+        have hf1 : (lift (Repaired.mismSgmPixel vg) a).flag r c = replaceBit (a.flag r c) (2 ^ 9) (2 ^ 8) := by
+          rw [hm2, mism_to_occl h9 h8, mismatch_pow, occlusion_pow]
+        refine sgmR_occl hwf hr hc (Or.inr hk) hfl hnb (by rw [hf1, testBit_replaceBit]; simp)
+          (by rw [hf1, testBit_replaceBit]; simp [h4]) (by rw [hf1, hk]; simp [unfilledFlag, mismatch_pow, occlusion_pow]) ?_ ?_
+        · rw [hf1, hk, occlusion_pow, filledOcclusion_pow, replaceBit_twice _ 9 8 4 h8 (by decide)]
+          simp [filledFlag, mismatch_pow, filledOcclusion_pow]
+        · rw [hk]; simp only [filledFlag]
+          rw [flagged_eq, mismatch_pow, filledOcclusion_pow, testBit_replaceBit, testBit_replaceBit]; simp [h8]
+    · -- neither bit
+      simp only [Bool.not_eq_true] at h9
+      have hfl : flagged (a.flag r c) = false := by rw [flagged_eq, h8, h9]; rfl
+      obtain ⟨hm1, hm2⟩ := mismSgmR_unflagged a r c h9
+      have h8' : ((lift (Repaired.mismSgmPixel vg) a).flag r c).testBit 8 = false := by rw [hm2]; exact h8
+      obtain ⟨ho1, ho2⟩ := occlSgmR_unflagged (lift (Repaired.mismSgmPixel vg) a) r c h8'
+      exact Outcome.untouched hfl (by rw [sgmR_eq, ho1, hm1]) (by rw [sgmR_eq, ho2, hm2]) (hwf.bc r c hr hc)
+
+end sgmR
+
+/-- FULL STRENGTH, repaired code.  With `proposed_fixes/C14-fill-from-nothing.diff` applied, every well-formed map
+    of any size, both methods: the whole specification holds — no hypothesis about sources is left. -/
+theorem spec_holds_repaired (meth : Method) (off : Nat) (a : DMap) (hwf : wf meth off a = true) :
+    spec meth off a (Repaired.interpolate vg meth off a) = true := by
+  unfold spec
+  have h1 : (Repaired.interpolate vg meth off a).rows = a.rows := by cases meth <;> rfl
+  have h2 : (Repaired.interpolate vg meth off a).cols = a.cols := by cases meth <;> rfl
+  simp only [h1, h2, decide_true, Bool.true_and, List.all_eq_true, List.mem_range]
+  intro r hr c hc
+  apply pixelOK_of_outcome
+  cases meth with
+  | mccnn => exact mccnnR_outcome (wf_elim hwf) hr hc
+  | sgm => exact sgmR_outcome (wf_elim hwf) hr hc
+
+/-- the repaired code on the inputs of the counterexamples: the pixels stay flagged -/
+example : (Repaired.interpolate vg .mccnn 0 exF6a).flag 0 2 = 512 ∧ (Repaired.interpolate vg .mccnn 0 exF6b).disp 0 0 = .num 7
+    ∧ (Repaired.interpolate vg .sgm 0 exF6c).flag 1 1 = 512 ∧ (Repaired.interpolate vg .sgm 0 exF6d).flag 1 1 = 256
+    ∧ spec .mccnn 0 exF6a (Repaired.interpolate vg .mccnn 0 exF6a) = true
+    ∧ spec .mccnn 0 exF6b (Repaired.interpolate vg .mccnn 0 exF6b) = true
+    ∧ spec .sgm 0 exF6c (Repaired.interpolate vg .sgm 0 exF6c) = true
+    ∧ spec .sgm 0 exF6d (Repaired.interpolate vg .sgm 0 exF6d) = true := by decide
+
+end R
 
 end Pandora.C14
